@@ -9,11 +9,6 @@ import (
 // C09: a multiplexed swarm's MTU plus its channel header fits the swarm beneath, for every
 // channel identifier and every inner MTU.
 
-type vAddr uint8
-
-func (a vAddr) MarshalText() ([]byte, error) { return []byte{'a' + byte(a)}, nil }
-func (a vAddr) String() string               { return string([]byte{'a' + byte(a)}) }
-
 type vInnerMTU struct{ mtu int }
 
 func (s vInnerMTU) Tell(ctx context.Context, dst vAddr, v p2p.IOVec) error { return nil }
